@@ -449,6 +449,7 @@ import mir_jobs_account    # noqa: E402,F401  (registers the account deposit job
 import mir_jobs_addr    # noqa: E402,F401  (registers the address codec jobs)
 import mir_jobs_worktop    # noqa: E402,F401  (registers the worktop jobs)
 import mir_jobs_pool    # noqa: E402,F401  (registers the pool contribution jobs)
+import mir_jobs_rounds    # noqa: E402,F401  (registers the round / epoch jobs)
 
 
 def _index():
